@@ -44,10 +44,12 @@ func init() {
 			"Round 3: query and form parameter names that need escaping ($filter, page[size], 'a b', ...); values ending in a space, a reserved byte or a line break; templates and a base path ending in '/', literal segments with reserved bytes; static query parameters written into the operation's path pattern or into the transport's base path, each such call followed by a call (1 in 2 on a new Runtime) to an operation declaring the name whose caller leaves it out (it must receive none); readers that hand the live body to the consumer; answers labelled with a media type the client has no consumer for (the call must fail naming the content type without entering the reader, as C13 states; with a catch-all consumer the answer must arrive intact); values that cannot be sent (unmarshallable body, media type without producer, a directory as upload: the call fails and no handler runs; a stream whose Close fails). " +
 			"Round 4: empty values at every count (a scalar query/form value that is the empty text; multi arrays of one empty item [\"\"], of several empty items; some multi arrays declare a default); descriptions that spell a produces entry with upper-case letters and/or a parameter (Text/Plain, application/JSON; charset=utf-8, a blank before the ';'), the client listing the types as the description spells them (consumes entries spelled that way too: the client used to refuse them with 'none of producers registered', repaired by bbaab0a and pinned). Lists are compared item by item (a list of one empty item is not the empty list). " +
 			"Round 5: the query string carries keys that are no parameter of the operation, mostly spelled like a (non-file) form field of it, which the caller sets or leaves out as before: the api key of the description's security scheme carried in the query (client.APIKeyAuth(name, \"query\", ..) against security.APIKeyAuth on the server), a parameter the client auth writer adds (a token, a signature), a static query parameter of the path pattern or of the transport's base path; the form field must arrive as set in the form, or as nothing. The handler sets a further response header line by line (a date header with its date; Warning/Link/free-text headers of 1..3 lines, 1 value in 2 holding a comma) and the reader reads it, and the echo header, through GetHeaders as well as GetHeader: the lines must arrive as many, in order and whole. " +
+			"Round 10: segments made of one placeholder and literal text closing the segment ('/r0/{p0}.json', '{p0}:activate', '{p0}.tar.gz', ';v=1', '@latest', ...) in 1 path parameter in 4, called in 2 calls in 3 with values built around that literal (at the start, in the middle, at the end, twice, several times in a row, alone, cut short to a proper prefix, a proper suffix first, directly followed by more text) next to the ordinary hostile values: the handler must get the value as supplied. " +
 			"Every call runs on a transport of its case; a dial/reset/deadline/closed-connection error of the loopback plumbing is counted (env:*), the call is repeated once on a fresh server and only what shows again is judged; running out of descriptors/ports is never judged. " +
 			"Oracle: equality of every received value with the supplied one (a declared query/header/form parameter the call left out must arrive as the zero value, or as the default its declaration has), of the operation that ran, and of status/headers/body seen by the response reader with what the handler wrote (body read to EOF without error; status and headers only for HEAD operations). non-trivial = a call with >= 1 value containing a byte that needs escaping in its location; distinct by (operation shape, value tuple)",
 		Assumptions: []string{
 			"path values that are empty or dot segments are not generated (outside the guarantee: paths are normalised by design)",
+			"a template segment holds at most one placeholder, optionally followed by literal text; several placeholders in one segment ('{a}.{b}') are not generated (which text belongs to which placeholder is ambiguous for values holding the separator: C01's recorded class)",
 			"header values are restricted to what HTTP can carry (no CR/LF/NUL/other controls, no leading/trailing whitespace)",
 			"JSON body strings are valid UTF-8 (JSON cannot carry other bytes); form file names are sent by base name and hold no CR/LF/NUL/DEL (Go's MIME header reader refuses a part header with DEL: protocol, not this code)",
 			"the Content-Type of a 304 answer is not judged (net/http strips it); a 304 answer carries no body",
@@ -879,6 +881,9 @@ func runCase(m *mon.M, c *Case) {
 		if needsEscaping(call) {
 			m.NT(opShape(op) + "|" + callKey(call))
 		}
+		if f := closedSegmentFeature(call, op); f != "" {
+			m.Class("shape:" + f) // round 10
+		}
 		if o.edited {
 			m.Class("probe:media-type-list-of-the-operation-edited-by-the-library")
 		}
@@ -1475,6 +1480,9 @@ func (c *Case) feature(call *Call) string {
 	if literalNeedsEscaping(op.Template) {
 		fs = append(fs, "literal-needs-escaping")
 	}
+	if f := closedSegmentFeature(call, op); f != "" {
+		fs = append(fs, f) // round 10
+	}
 	if len(call.Header) > 0 {
 		fs = append(fs, "header")
 	}
@@ -1582,6 +1590,26 @@ func literalNeedsEscaping(tpl string) bool {
 		}
 	}
 	return false
+}
+
+// closedSegmentFeature: a path parameter of the operation is followed by literal text inside its segment; the value the call
+// gives it holds that text, or does not.
+func closedSegmentFeature(call *Call, op *gen.Op) string {
+	f := ""
+	for _, p := range op.Params {
+		if p.In != "path" {
+			continue
+		}
+		lit := closingLiteral(op.Template, p.Name)
+		if lit == "" {
+			continue
+		}
+		if v, ok := call.Path[p.Name]; ok && strings.Contains(string(v), lit) {
+			return "value-holds-the-literal-closing-its-segment"
+		}
+		f = "literal-closes-the-segment"
+	}
+	return f
 }
 
 func formDeclared(op *gen.Op) bool {
@@ -1725,6 +1753,82 @@ func utf8Value(r *rand.Rand) string {
 
 var methodsWithBody = []string{"POST", "PUT", "PATCH"}
 
+// round 10: a segment made of ONE placeholder and literal text after it ("/reports/{id}.json", "/jobs/{name}:activate"). The
+// literal belongs to the template, not to the value: the client appends it to the (escaped) value, and what the handler gets
+// is the value as supplied, whatever the value itself holds, the literal's own text included. Only bytes a URL path carries
+// unescaped; several placeholders in one segment ("{a}.{b}") are not generated: which text belongs to which of them is
+// ambiguous for values holding the separator (C01's recorded class).
+const closedSegments = true
+
+var closingLiterals = []string{".json", ":activate", ".v2", "-x", ".tar.gz", "@latest", ";v=1", "_id", ",full", ".j", "=", "~~", ".xml", ":1"}
+
+// closingLiteral is the literal text between the placeholder of the named parameter and the end of its segment ("" = none).
+func closingLiteral(tpl, name string) string {
+	i := strings.Index(tpl, "{"+name+"}")
+	if i < 0 {
+		return ""
+	}
+	rest := tpl[i+len(name)+2:]
+	if j := strings.IndexByte(rest, '/'); j >= 0 {
+		rest = rest[:j]
+	}
+	if strings.ContainsAny(rest, "{}") {
+		return "" // a further placeholder in the segment: not generated
+	}
+	return rest
+}
+
+// valueAroundLiteral is a path value built around the text that closes the value's segment in the template: the literal at
+// the start of the value, in the middle, at its end, twice, several times in a row, alone, cut short (a proper prefix or a
+// proper suffix of it) and overlapping itself; the other parts are letters or hostile text.
+func valueAroundLiteral(r *rand.Rand, lit string) string {
+	part := func() string {
+		switch r.Intn(4) {
+		case 0:
+			return hostile(r)
+		case 1:
+			return []string{"q3", "export", "a", "7"}[r.Intn(4)]
+		case 2:
+			return ""
+		}
+		return []string{"b", "x1", "é", "a b"}[r.Intn(4)]
+	}
+	prefix := func() string { // a proper, non-empty prefix of the literal where it has one
+		if len(lit) < 2 {
+			return lit
+		}
+		return lit[:1+r.Intn(len(lit)-1)]
+	}
+	for {
+		var v string
+		switch r.Intn(10) {
+		case 0: // at the start
+			v = lit + part() + "s"
+		case 1: // in the middle
+			v = part() + lit + part() + "m"
+		case 2: // at the end (the request path then ends in the literal twice)
+			v = part() + lit
+		case 3: // twice, the second time at the end or not
+			v = part() + lit + part() + lit + []string{"", "t", ".bak"}[r.Intn(3)]
+		case 4: // several times in a row
+			v = part() + strings.Repeat(lit, 2+r.Intn(2)) + []string{"", "r"}[r.Intn(2)]
+		case 5: // the literal and nothing else
+			v = lit
+		case 6: // cut short at the end of the value: a proper prefix of the literal
+			v = part() + "p" + prefix()
+		case 7: // the literal, then a proper prefix of it
+			v = part() + lit + prefix()
+		case 8: // a proper suffix of the literal at the start, the literal later
+			v = lit[len(lit)/2:] + part() + lit + []string{"", "u"}[r.Intn(2)]
+		default: // the literal directly followed by more text ("a.jsonb")
+			v = part() + lit + []string{"b", "0", "x y", "/z"}[r.Intn(4)]
+		}
+		if v != "" && v != "." && v != ".." {
+			return v
+		}
+	}
+}
+
 // literal template segments with reserved bytes that a URL path carries unescaped (':' and '*' are left to C01/C05: the trie
 // router gives them a meaning of its own, a known finding there)
 var reservedLiterals = []string{"a+b", "r;v=1", "r$x", "r@x", "r,x", "r=x", "v1.2", "r~x", "r!x", "r'x", "r(x)", "r&x", "r[x]", "a-b_c"}
@@ -1788,6 +1892,10 @@ func genDesc(r *rand.Rand) (gen.Desc, bool) {
 				tpl += "/s"
 			}
 			tpl += "/{" + name + "}"
+			if closedSegments && r.Intn(4) == 0 {
+				// round 10: literal text closes the segment after its (one) placeholder ("/reports/{id}.json", "{name}:activate")
+				tpl += closingLiterals[r.Intn(len(closingLiterals))]
+			}
 			op.Params = append(op.Params, gen.Param{Name: name, In: "path", Type: "string", Required: true})
 		}
 		if r.Intn(4) == 0 {
@@ -1954,6 +2062,9 @@ func genCall(r *rand.Rand, d *gen.Desc, oi int) Call {
 				c.Path = map[string]mon.Q{}
 			}
 			c.Path[p.Name] = mon.Q(pathValue(r))
+			if lit := closingLiteral(op.Template, p.Name); lit != "" && r.Intn(3) != 0 {
+				c.Path[p.Name] = mon.Q(valueAroundLiteral(r, lit))
+			}
 		case "query":
 			if r.Intn(8) == 0 {
 				// the operation's path pattern carries the parameter ("/reports?view=full"); the caller sets it too in 1 call in 2
